@@ -3,6 +3,7 @@ From BBF Require Import Base.Prelude Base.Names Base.Bits Spec.Sem
      Model.Expr Model.Table Model.LibBdd Model.Bdd
      Proofs.ExprProofs Proofs.TableProofs Proofs.QuantProofs Proofs.NfProofs Proofs.DdProofs Proofs.BddProofs Proofs.BddOps
      Proofs.ConvProofs Proofs.RenderProofs Proofs.EnumProofs Proofs.DualityProofs.
+From BBF Require Import Model.Lexer Model.Parser Model.Display Model.Render Model.Csv Model.Prog Proofs.ProgProofs Proofs.ConvChain Proofs.OpsObjects.
 From Coq Require Import Sorting.Permutation.
 Theorem C06_expr_exists_sem : forall vars e v, sem v (e_exists e vars) = elim_fn orb vars (fun w => sem w e) v.
 Proof. exact e_exists_sem. Qed.
@@ -89,3 +90,11 @@ Theorem C06_exists_is_dual_of_forall : forall vars f v,
   elim_fn orb vars f v = negb (elim_fn andb vars (fun w => negb (f w)) v).
 Proof. exact exists_is_dual_of_forall. Qed.
 Print Assumptions C06_exists_is_dual_of_forall.
+
+(* ---- an object of any representation ---- *)
+Theorem C06_objects : forall q o vars, owf o ->
+  exists o', exec_quant q o vars = Ok o' /\ owf o' /\ obj_kind o' = obj_kind o /\
+             (forall v, osem o' v = elim_fn (quant_op q) vars (osem o) v) /\
+             decl o' = set_diff (decl o) vars.
+Proof. exact obj_quant_spec. Qed.
+Print Assumptions C06_objects.
